@@ -62,18 +62,35 @@ def options_only_first_frame() -> bytes:
     raise HarnessError("no option combination gives a 10-byte options-only frame")
 
 
+def recut_per_statement(data: bytes, per: int = 1) -> bytes:
+    """The rows of a delimited triple stream re-cut with the wire codec so that a frame ends
+    after every `per`-th statement row, wherever the library put its own frame cuts."""
+    rows = [r for f in jwire.read_delimited(data) for r in f["rows"]]
+    frames, cur, n = [], [], 0
+    for r in rows:
+        cur.append(r)
+        if r["kind"] in ("triple", "quad"):
+            n += 1
+            if n % per == 0:
+                frames.append(jwire.enc_frame(cur))
+                cur = []
+    if cur:
+        frames.append(jwire.enc_frame(cur))
+    return jwire.write_delimited(frames)
+
+
 def exact_frames_stream(targets, pad: int = 1) -> bytes:
     """One statement per frame; frames 2.. have exactly the given byte lengths (the literal of
     each statement is sized by search), e.g. multiples of 128 whose length prefix starts 0x80."""
     from mc.terms import I, L  # noqa: PLC0415
 
-    opts = lambda: DR.make_options("triple", (16, 4, 4), 1, True)  # noqa: E731
+    opts = lambda: DR.make_options("triple", (16, 4, 4), 250, True)  # noqa: E731
     seq = [(I("http://a/s0"), I("http://a/p"), L("first"))]
     for t in targets:
         k = max(0, t - 40)
         for _ in range(12):
             cand = seq + [(I(f"http://a/s{len(seq)}"), I("http://a/p"), L("x" * k))]
-            data = DR.g_write(cand, "triple", opts())
+            data = recut_per_statement(DR.g_write(cand, "triple", opts()))
             ln = len(jwire.split_delimited(data)[-1])
             if ln == t:
                 break
@@ -83,7 +100,7 @@ def exact_frames_stream(targets, pad: int = 1) -> bytes:
         seq = cand
     for i in range(pad):
         seq.append((I("http://a/last"), I("http://a/p"), L(str(i))))
-    return DR.g_write(seq, "triple", opts())
+    return recut_per_statement(DR.g_write(seq, "triple", opts()))
 
 
 def metadata_first_frame() -> bytes:
@@ -145,8 +162,8 @@ def base_streams(size: str = "small") -> tuple:
 
     seq9 = [(_I("http://a/s0"), _I("http://a/p"), _L("n" * 9000))] + [
         (_I(f"http://a/s{i}"), _I("http://a/p"), _L(str(i))) for i in range(1, 4)]
-    e = _entry("first9k/triple", "triple",
-               DR.g_write(seq9, "triple", DR.make_options("triple", (16, 4, 4), 1, True)), True)
+    e = _entry("first9k/triple", "triple", recut_per_statement(
+        DR.g_write(seq9, "triple", DR.make_options("triple", (16, 4, 4), 250, True))), True)
     e["big"] = True
     out.append(e)
     if size == "full":
